@@ -1,8 +1,12 @@
 """Affine normal forms of integer expressions (a classic static value abstraction): value = c0 + sum(ci * root_i).
 
 Only +, -, multiplication and division by constants are interpreted; anything else (a call result, a parameter, a local
-with several definitions, a value defined by dividing a variable) is an opaque root.  Integer division by a constant is
-treated as exact rational division only where the caller says so (`exact_div`), which is recorded as an assumption."""
+with several definitions, a named variable defined by dividing a variable) is an opaque root.  Integer division by a
+constant is treated as exact rational division (recorded as an assumption by the rules that use it).
+
+Memory: a read of a field place (e.g. `(*ctx).current_part_blob_offset`) at a program position resolves to the value of
+the unique store to the same place that dominates the read with no other store to it in between; if no store dominates,
+to the root `<place>@entry`; if stores may reach without dominating, to `<place>@?` (unknown)."""
 from fractions import Fraction
 
 ADD = ("Add", "AddWithOverflow", "AddUnchecked")
@@ -15,8 +19,56 @@ def _const(d):
     return len(d) == 1 and "1" in d
 
 
-def affine(fn, op, exact_div=True, opaque_div_vars=True, depth=0):
-    """dict root -> Fraction, with the key "1" for the constant term.  Roots are strings '_<local>' (or the user name)."""
+def _place_key(fn, pl):
+    base = fn.local_name(pl.local) or "_%d" % pl.local
+    return base + "".join("*" if p == "*" else ("." + p["n"] if isinstance(p, dict) and "f" in p else "[]") for p in pl.proj)
+
+
+def _same_place(a, b):
+    return a.local == b.local and [(p if p == "*" else p.get("f", p.get("dc"))) for p in a.proj] == [(p if p == "*" else p.get("f", p.get("dc"))) for p in b.proj]
+
+
+def stores_to(fn, pl):
+    out = []
+    for b in fn.blocks:
+        if b.cleanup:
+            continue
+        for i, s in enumerate(b.stmts):
+            if s.k == "assign" and s.place.proj and _same_place(s.place, pl):
+                out.append((b.idx, i, s))
+    return out
+
+
+def reaching_store(fn, pl, pos):
+    """('store', (block, idx, stmt)) | ('entry', None) | ('unknown', None)"""
+    sts = stores_to(fn, pl)
+    before = [(b, i, s) for (b, i, s) in sts if (b, i) != pos and fn.pos_dominates((b, i), pos) and not (b == pos[0] and i >= pos[1])]
+    others = [(b, i, s) for (b, i, s) in sts if (b, i, s) not in before]
+    if not before:
+        # a non-dominating store that can reach the read makes it unknown
+        for (b, i, s) in others:
+            if (b, i) != pos and pos[0] in fn.reachable([b]) and not (b == pos[0] and i >= pos[1]):
+                return "unknown", None
+        return "entry", None
+    # the last dominating store: the one dominated by all other dominating stores
+    last = None
+    for c in before:
+        if all(fn.pos_dominates((o[0], o[1]), (c[0], c[1])) for o in before):
+            last = c
+    if last is None:
+        return "unknown", None
+    # no other store strictly between last and pos on some path
+    for (b, i, s) in others:
+        if (b, i) == pos:
+            continue
+        if b in fn.reachable([last[0]]) and pos[0] in fn.reachable([b]) and not fn.pos_dominates((b, i), (last[0], last[1])):
+            if not (b == pos[0] and i >= pos[1]):
+                return "unknown", None
+    return "store", last
+
+
+def affine(fn, op, exact_div=True, opaque_div_vars=True, depth=0, pos=None):
+    """dict root -> Fraction, with the key "1" for the constant term."""
     if op.is_const():
         v = op.const_val()
         if v is None:
@@ -25,10 +77,18 @@ def affine(fn, op, exact_div=True, opaque_div_vars=True, depth=0):
     pl = op.place
     if pl is None:
         return {"?": Fraction(1)}
-    # `_x.0` of a checked-arithmetic tuple -> the tuple's definition
     local = pl.local
-    if pl.proj and not (len(pl.proj) == 1 and isinstance(pl.proj[0], dict) and pl.proj[0].get("f") == 0):
-        return {repr(pl): Fraction(1)}
+    checked_tuple = len(pl.proj) == 1 and isinstance(pl.proj[0], dict) and pl.proj[0].get("f") == 0 and fn.local_ty(local).startswith("(")
+    if pl.proj and not checked_tuple:
+        if pos is not None:
+            kind, st = reaching_store(fn, pl, pos)
+            if kind == "store":
+                rv = st[2].rv
+                if rv.k in ("use", "cast") and depth < 40:
+                    return affine(fn, rv.ops[0], exact_div, opaque_div_vars, depth + 1, (st[0], st[1]))
+                return {_place_key(fn, pl) + "@store:%d" % st[2].ln: Fraction(1)}
+            return {_place_key(fn, pl) + ("@entry" if kind == "entry" else "@?"): Fraction(1)}
+        return {_place_key(fn, pl): Fraction(1)}
     if depth > 40:
         return {"_%d" % local: Fraction(1)}
     if 1 <= local <= fn.argc:
@@ -36,12 +96,14 @@ def affine(fn, op, exact_div=True, opaque_div_vars=True, depth=0):
     ds = [d for d in fn.defs().get(local, []) if not fn.blocks[d[0]].cleanup]
     if len(ds) != 1 or ds[0][2] != "assign":
         return {fn.local_name(local) or "_%d" % local: Fraction(1)}
+    dpos = (ds[0][0], ds[0][1])
     rv = ds[0][3].rv
     if rv.k in ("use", "cast"):
-        return affine(fn, rv.ops[0], exact_div, opaque_div_vars, depth + 1)
+        return affine(fn, rv.ops[0], exact_div, opaque_div_vars, depth + 1, dpos if pos is not None else None)
     if rv.k == "bin":
-        a = affine(fn, rv.ops[0], exact_div, opaque_div_vars, depth + 1)
-        b = affine(fn, rv.ops[1], exact_div, opaque_div_vars, depth + 1)
+        p2 = dpos if pos is not None else None
+        a = affine(fn, rv.ops[0], exact_div, opaque_div_vars, depth + 1, p2)
+        b = affine(fn, rv.ops[1], exact_div, opaque_div_vars, depth + 1, p2)
         opn = rv.op
         if opn in ADD or opn in SUB:
             sgn = 1 if opn in ADD else -1
@@ -57,8 +119,22 @@ def affine(fn, op, exact_div=True, opaque_div_vars=True, depth=0):
         if opn in DIV and _const(b) and b["1"] != 0:
             name = fn.local_name(local)
             if opaque_div_vars and name and not _const(a) and pl.is_local() and depth > 0:
-                # a named variable defined as floor(x / c): keep it opaque when it is used inside a bigger expression
                 return {name: Fraction(1)}
             if exact_div:
                 return {k: v / b["1"] for k, v in a.items()}
     return {fn.local_name(local) or "_%d" % local: Fraction(1)}
+
+
+def store_form(fn, store):
+    """affine form of the value written by a store (block, idx, stmt), memory-aware"""
+    b, i, s = store
+    rv = s.rv
+    if rv.k in ("use", "cast"):
+        return affine(fn, rv.ops[0], pos=(b, i), depth=1)
+    return None
+
+
+def pretty(form):
+    if form is None:
+        return "?"
+    return " + ".join(("%s*%s" % (v, k)) if v != 1 else k for k, v in sorted(form.items()))
